@@ -1881,6 +1881,11 @@ func (h *fsHandler) newCompressedFSFile(filePath, fileEncoding string) (*fsFile,
 }
 
 func (h *fsHandler) openFSFile(filePath string, mustCompress bool, fileEncoding string) (*fsFile, error) {
+	if filePath == h.root {
+		// The root directory itself has no compressed sibling inside the root:
+		// root+suffix would name a file next to the root directory.
+		mustCompress = false
+	}
 	filePathOriginal := filePath
 	if mustCompress {
 		filePath += h.compressedFileSuffixes[fileEncoding]
